@@ -3,6 +3,9 @@ package harness
 import (
 	"encoding/json"
 	"math/rand/v2"
+	"slices"
+
+	"github.com/google/uuid"
 
 	"github.com/semafind/semadb/models"
 	sim "github.com/semafind/semadb/zzsimrt"
@@ -28,7 +31,7 @@ func init() { Register(c04{}) }
 func (c04) ID() string { return "C04" }
 
 func (c04) Rule() string {
-	return "each run = a seeded write history (inserts, vector updates, vector removal, deletes, reopen, cache eviction) on a real shard with a flat vector index (one of the six metrics; quantiser none / binary fixed / binary learned with a small trigger so that training happens mid-history) plus filter indexes, under one seeded schedule; after every write seeded flat queries (limits 1..75, weights incl. 0 and negative, pre-filters) are asked of the warm instance and, periodically, of a cache-disabled and of a cold instance opened on copies of the file; each answer must be the exact tie-tolerant limit-NN of the reference model with distances equal to the metric definition (quantised form recomputed from the persisted threshold) and hybrid = -weight*distance. Non-trivial: >= 5 answers with >= 2 results over >= 3 model states. Distinct: (trace hash, final state)."
+	return "each run = a seeded write history (inserts, vector updates, vector removal, deletes, reopen, cache eviction) on a real shard with a flat vector index (one of the six metrics; quantiser none / binary fixed / binary learned / product, the learned ones with a small trigger so that training happens mid-history) plus filter indexes, under one seeded schedule; after every write seeded flat queries (limits 1..75, weights incl. 0 and negative, pre-filters) are asked of the warm instance and, periodically, of a cache-disabled and of a cold instance opened on copies of the file; each answer must be the exact tie-tolerant limit-NN of the reference model with distances equal to the metric definition (quantised form recomputed from the persisted threshold, or from the persisted product-quantiser centroids and stored codes; the persisted product state itself is checked: every live vector has a well-formed code, and a vector written after training is coded to a nearest centroid per sub-vector) and hybrid = -weight*distance. Non-trivial: >= 5 answers with >= 2 results over >= 3 model states. Distinct: (trace hash, final state)."
 }
 
 func c04Schema(r *rand.Rand, quant bool) models.IndexSchema {
@@ -150,6 +153,59 @@ func vecIndexInfo(sv models.IndexSchemaValue) (int, string, *models.Quantizer) {
 	return int(sv.VectorVamana.VectorSize), sv.VectorVamana.DistanceMetric, sv.VectorVamana.Quantizer
 }
 
+// pqTracker knows which points had their vector written after the product
+// quantiser was trained (their codes must be nearest-centroid codes).
+type pqTracker struct {
+	trained bool
+	prev    map[uuid.UUID][]float32
+}
+
+func (t *pqTracker) step(m *RefShard, prop string, dim int, vm VecMode) map[uuid.UUID]bool {
+	fresh := map[uuid.UUID]bool{}
+	cur := map[uuid.UUID][]float32{}
+	for id, d := range detRange(m.Docs) {
+		v, ok := docVector(d, prop, dim)
+		if !ok {
+			continue
+		}
+		cur[id] = v
+		if old, ok := t.prev[id]; !ok || !slices.Equal(old, v) {
+			fresh[id] = true
+		}
+	}
+	was := t.trained
+	t.trained = vm.PQ != nil
+	t.prev = cur
+	if !was {
+		return map[uuid.UUID]bool{} // trained during this step: every point took part in training
+	}
+	return fresh
+}
+
+// vecModeAt derives the distance in force after op i from the committed file and
+// checks the persisted product-quantiser state; false = a violation was recorded.
+func vecModeAt(env *Env, m *RefShard, schema models.IndexSchema, prop string, dump Dump, tr *pqTracker, i int) (VecMode, bool) {
+	dim, metric, quant := vecIndexInfo(schema[prop])
+	vm := vectorModeDump(dim, metric, quant, dump, indexBucketName(schema, prop))
+	fresh := tr.step(m, prop, dim, vm)
+	if vm.PQ != nil {
+		env.Stat("mode-product", 1)
+		env.Stat("pq-fresh-codes", len(fresh))
+		if msg := m.CheckPQ(prop, dim, vm, fresh); msg != "" {
+			env.Violate("wrong-answer", "pq-state", "after op %d: product quantiser state: %s", i, msg)
+			return vm, false
+		}
+	}
+	return vm, true
+}
+
+// pqCosineUntrained: product quantiser configured on a cosine index and not yet
+// trained. product.go applies squared euclidean from the start (documented there),
+// which C03/C04 do not allow before training; reported under its own signature.
+func pqCosineUntrained(metric string, quant *models.Quantizer, vm VecMode) bool {
+	return quant != nil && quant.Type == models.QuantizerProduct && metric == models.DistanceCosine && vm.PQ == nil && vm.Float != ""
+}
+
 func (c04) Execute(env *Env) {
 	var p vecParams_
 	if err := json.Unmarshal(env.Spec.Params, &p); err != nil {
@@ -164,6 +220,7 @@ func (c04) Execute(env *Env) {
 	states := map[string]bool{}
 	rich := 0
 	dim, metric, quant := vecIndexInfo(p.Schema["vf"])
+	var tr pqTracker
 	env.RunSim(env.Spec.Sim, func() {
 		w := NewShardWorld(env, sw, col, "bbolt", p.CacheSize)
 		if err := w.Open(); err != nil {
@@ -175,7 +232,8 @@ func (c04) Execute(env *Env) {
 			if !applyOp(env, w, model, i, op) {
 				return
 			}
-			if len(p.Queries[i]) == 0 {
+			isPQ := quant != nil && quant.Type == models.QuantizerProduct
+			if len(p.Queries[i]) == 0 && !isPQ {
 				continue
 			}
 			states[model.StateKey()] = true
@@ -184,8 +242,15 @@ func (c04) Execute(env *Env) {
 				env.Infra("dump: %v", err)
 				return
 			}
-			vm := vectorMode(dim, metric, quant, dump[indexBucketName(p.Schema, "vf")])
-			if vm.Bit != "" {
+			vm, ok := vecModeAt(env, model, p.Schema, "vf", dump, &tr, i)
+			if !ok {
+				return
+			}
+			if len(p.Queries[i]) == 0 {
+				continue
+			}
+			if vm.PQ != nil {
+			} else if vm.Bit != "" {
 				env.Stat("mode-bits", 1)
 			} else {
 				env.Stat("mode-float", 1)
@@ -233,6 +298,13 @@ func (c04) Execute(env *Env) {
 						return
 					}
 					if d := CheckValidRanked(want, a.Items, limit, weight, vm.Opaque); d != "" {
+						if pqCosineUntrained(metric, quant, vm) {
+							if alt, err := model.VectorCandidates("vf", dim, VecMode{Float: models.DistanceEuclidean}, qvec, filter); err == nil &&
+								CheckValidRanked(alt, a.Items, limit, weight, false) == "" && CheckExactTopK(alt, a.Items, limit) == "" {
+								env.Violate("wrong-answer", "product-cosine-untrained-reports-euclidean", "%s: cosine index with an untrained product quantiser reports squared euclidean distances: %s; got %s", where, d, fmtItems(a.Items))
+								return
+							}
+						}
 						env.Violate("wrong-answer", "flat-invalid:"+names[ti], "%s: %s; got %s", where, d, fmtItems(a.Items))
 						return
 					}
